@@ -31,6 +31,9 @@ ACTION_OF = {  # Ops name -> action name in Vec.tla (for the dead-action check)
     "convert": "Convert", "leak": "Leak", "new": "NewCont", "flatten": "Flatten", "split_off": "SplitOff",
     "split_at": "SplitAt", "split_ends": "SplitEnds", "split_at_spare": "SplitSpare", "partition": "Partition",
     "merge": "Merge", "box_one": "BoxOne", "observe": "Observe"}
+# two-operation exhaustive sets of the thorough tier
+CORE_OPS = ["push", "remove", "truncate", "resize", "extend_from_within", "retain", "dedup", "drain", "into_iter", "map",
+            "split_off", "append_slot", "extract_if"]
 JOBS = int(os.environ.get("VERIF_JOBS", "10"))
 SHAPES = "e16,e1,ez"
 SETTINGS = "u1,d1,u8,d8,u16,d16"
@@ -380,7 +383,7 @@ def check_c06(tier):
             (dict(kinds=KINDS, zst=[False, True], lens=[0, 1, 2, 3], spare=[0, 2], maxlen=4, maxids=14, maxops=5 if th else 4,
                   inject=True, ops=ops, keymodes=("pair", "same", "alt")), 40000 if th else 1200, 16),
         ] + ([(dict(kinds=[k], zst=[False], lens=[2], spare=[1], maxlen=3, maxids=9, maxops=2, inject=True,
-                    ops=ops + ["early_close"]), None, None) for k in KINDS] if th else []),
+                    ops=CORE_OPS + ["early_close", "drop_inject"]), None, None) for k in KINDS] if th else []),
         "replay_mode": "shapes" if th else "rotate",
         "explanation": "TLC checks on Vec.tla (one action per public operation, each in the outcomes normal / expected panic / panic "
                        "injected at the k-th Clone, closure, predicate, iterator-next or Drop invocation): no id dropped twice, no id "
@@ -408,7 +411,8 @@ def check_c08(tier):
             (dict(kinds=KINDS, zst=[False, True], lens=[0, 1, 2, 3], spare=[0, 2], maxlen=4, maxids=16, maxops=6 if th else 5,
                   inject=False, ops=ALL_OPS, keymodes=("pair", "same", "alt")), 40000 if th else 1500, 18),
         ] + ([(dict(kinds=[k], zst=[False], lens=[1, 3], spare=[1], maxlen=4, maxids=10, maxops=2, inject=False,
-                    ops=ALL_OPS + ["early_close"]), None, None) for k in KINDS] if th else []),
+                    ops=CORE_OPS + ["insert", "pop", "swap_remove", "extend", "reserve", "shrink", "splice", "early_close"]),
+               None, None) for k in KINDS] if th else []),
         "replay_mode": "shapes" if th else "rotate",
         "explanation": "Vec.tla is the reference (std Vec meaning of every operation, MutBumpVecRev read through the mirror mapping); "
                        "its fidelity to std is validated by replaying every emitted behaviour on std::vec::Vec. TLC checks on the "
